@@ -97,9 +97,12 @@ enum Hist {
     RunThenRunFirstLine,
     /// two direct READs, then RUN 10
     DirectReadThenRunFirstLine,
+    /// RUN, then a DATA statement typed as a direct line (refused), then RUN
+    DirectDataThenRun,
 }
 
-const HISTS: [Hist; 9] = [
+const HISTS: [Hist; 10] = [
+    Hist::DirectDataThenRun,
     Hist::RunThenRunFirstLine,
     Hist::DirectReadThenRunFirstLine,
     Hist::Fresh,
@@ -205,6 +208,14 @@ fn judge(p: &Prog, h: Hist, ctx: &mut Ctx) {
             Hist::DirectReadThenRunFirstLine => {
                 s.enter("READ Q:READ Q");
             }
+            Hist::DirectDataThenRun => {
+                s.enter("RUN");
+                s.take();
+                s.enter("DATA 99,\"z\",98");
+                if !s.take().iter().any(|e| matches!(e, crate::driver::Ev::Err(_))) {
+                    return "a DATA statement typed as a direct line was accepted".to_string();
+                }
+            }
         }
         s.take();
         if h == Hist::RunThenDirectRead {
@@ -276,7 +287,7 @@ impl Check for C09 {
     fn meta(&self, tier: Tier) -> Meta {
         Meta {
             bound: format!(
-                "every program of 1..{} lines, in every order, over 20 line bodies: DATA 1 | -4,3.5 | \"two\" | 40000 | 5,\"s\",6, DATA after a PRINT, DATA inside IF 0 THEN; READ into A, A%, A$, A#, D(1), A,B$ (each followed by PRINT), conditional READ, RESTORE, RESTORE first/last/own/absent line, a loop back to the first line; each under 7 histories (fresh, RUN twice, READ then CLEAR, two direct READs then RUN, RUN then direct READ, RUN then insert a DATA line then RUN, RUN interrupted after 9 instructions then RUN)",
+                "every program of 1..{} lines, in every order, over 20 line bodies: DATA 1 | -4,3.5 | \"two\" | 40000 | 5,\"s\",6, DATA after a PRINT, DATA inside IF 0 THEN; READ into A, A%, A$, A#, D(1), A,B$ (each followed by PRINT), conditional READ, RESTORE, RESTORE first/last/own/absent line, a loop back to the first line; each under 10 histories (fresh, RUN twice, READ then CLEAR, two direct READs then RUN, RUN then direct READ, RUN then insert a DATA line then RUN, RUN interrupted after 9 instructions then RUN, RUN then RUN 10, two direct READs then RUN 10, RUN then a direct DATA line (must be refused) then RUN)",
                 tier.pick(4, 5)
             ),
             rule: "a case is (program, history); compared: the transcript of the final RUN (or direct READ); distinct_nontrivial = distinct expected transcripts".into(),
